@@ -105,7 +105,7 @@ fn limit_scenario(c: &mut Ctx) {
     c.cx.count("limit:add_op-runs");
     // merging across the limit
     for verified in [false, true] {
-        let (na, nb) = (*[600usize, 1000, 1020, 1023].choose(&mut c.cx.rng).expect("nonempty"), *[1usize, 3, 30, 600].choose(&mut c.cx.rng).expect("nonempty"));
+        let (na, nb) = *[(1023usize, 1usize), (1020, 4), (1000, 24), (600, 424), (512, 512), (1023, 3), (1020, 3), (1000, 30), (600, 600), (1024, 1), (1021, 4)].choose(&mut c.cx.rng).expect("nonempty");
         let (mut a, mut b) = (base.clone(), base.clone());
         for op in mint(na) {
             let _ = a.add_op(op);
@@ -117,6 +117,17 @@ fn limit_scenario(c: &mut Ctx) {
         let before_ops = a.ops().clone();
         let res = if verified { a.verified_merge(&b) } else { a.merge(&b) };
         c.cx.count("limit:merges");
+        // the two replicas hold disjoint operations: the union has na + nb entries and fits iff that is <= 1024
+        // (a register of exactly 1024 entries is reachable by add_op and verifies)
+        let union = na + nb;
+        if union == 1024 {
+            c.cx.count("limit:merges-to-exactly-the-limit");
+        }
+        match (&res, union <= 1024) {
+            (Err(e), true) => c.cx.violation("merge-within-entry-limit-refused", format!("replicas of {na} and {nb} disjoint operations (union {union} <= 1024) were not merged: {e:?}"), json!({"verified": verified})),
+            (Ok(()), false) => c.cx.violation("merge-beyond-entry-limit-accepted", format!("replicas of {na} and {nb} disjoint operations (union {union} > 1024) were merged"), json!({"verified": verified})),
+            _ => {}
+        }
         if res.is_ok() {
             c.closure(&a, if verified { "verified_merge" } else { "merge" });
         } else {
